@@ -70,6 +70,9 @@ CHECKS['C19'] = pure('ParseContract.tla / ParseGen.tla', 'Exhaustive for item li
     'default and raising parser, separators of length 1..2; random item lists of length 2..4; the actual result is abstracted back to fragment classes through a hand-written table (independent of '
     'ast.literal_eval) and compared by TLC with the transcribed rules (split at first separator, later pair wins, ValueError without separator, non-strings untouched); a trip-wire object counts '
     'any evaluation. The universal no-evaluation claim is checked over this fragment grammar only.')
+CHECKS['C14'] = pure('KeysContract.tla / KeysGen.tla', 'Exhaustive within bounds: all pairs of call signatures (positional tuples 0..2, keyword lists of 0..2 names in every order, two '
+    'equality classes concretised as equal-but-distinct objects) run sequentially and concurrently, and all call/evict sequences of length 1..4 over 3 keys on a caller-supplied MutableMapping '
+    'and bounded LRU(1)/LRU(2) (LRU semantics modelled in the spec); random longer signatures; clauses C14_Shares, C14_NeverCross, C14_ValueOfKey, C14_OneRecompute.')
 PENDING_REASON = 'check not built yet in this session (planned: see DESIGN.md §5); not a claim that the technique cannot apply'
 PENDING = {('C%02d' % i): PENDING_REASON for i in range(1, 21)}
 ENGINES = [
